@@ -49,6 +49,8 @@ type Hooks struct {
 	Steps    []StepRec
 	Attempts map[string]int // op+" "+path -> count
 	Fired    bool           // the scripted error or crash was reached
+
+	lk sync.Mutex // the code under test may read files from several goroutines
 }
 
 // NewHooks returns hooks with no fault scheduled.
@@ -70,6 +72,8 @@ func cur() *Hooks { mu.Lock(); defer mu.Unlock(); return h }
 // how many bytes may be written (allow), an error to return after that, and
 // whether the operation must be skipped entirely (after a crash).
 func (x *Hooks) step(op, path string, n int) (allow int, err error, skip bool) {
+	x.lk.Lock()
+	defer x.lk.Unlock()
 	if x.Crashed {
 		return 0, fs.ErrClosed, true
 	}
@@ -106,16 +110,27 @@ func (x *Hooks) crash() {
 }
 
 func (x *Hooks) attempt(op, path string) int {
+	x.lk.Lock()
+	defer x.lk.Unlock()
 	k := op + " " + path
 	x.Attempts[k]++
 	return x.Attempts[k]
+}
+
+// ask counts the attempt and asks the read script, atomically.
+func (x *Hooks) ask(op, path string) ([]byte, error, bool) {
+	x.lk.Lock()
+	defer x.lk.Unlock()
+	k := op + " " + path
+	x.Attempts[k]++
+	return x.Read(op, path, x.Attempts[k])
 }
 
 // ---------------------------------------------------------------- read side
 
 func ReadFile(name string) ([]byte, error) {
 	if x := cur(); x != nil && x.Read != nil {
-		if d, err, ok := x.Read("ReadFile", name, x.attempt("ReadFile", name)); ok {
+		if d, err, ok := x.ask("ReadFile", name); ok {
 			return d, err
 		}
 	} else if x != nil {
@@ -126,7 +141,7 @@ func ReadFile(name string) ([]byte, error) {
 
 func Stat(name string) (os.FileInfo, error) {
 	if x := cur(); x != nil && x.Read != nil {
-		if d, err, ok := x.Read("Stat", name, x.attempt("Stat", name)); ok {
+		if d, err, ok := x.ask("Stat", name); ok {
 			if err != nil {
 				return nil, err
 			}
@@ -276,8 +291,19 @@ func wrap(f *os.File, err error, path string, w bool) (*File, error) {
 
 func Open(name string) (*File, error) {
 	if x := cur(); x != nil && x.Read != nil {
-		if _, err, ok := x.Read("Open", name, x.attempt("Open", name)); ok && err != nil {
-			return nil, err
+		if d, err, ok := x.ask("Open", name); ok {
+			if err != nil {
+				return nil, err
+			}
+			// a scripted (possibly virtual) file: serve its content from an unlinked temporary file
+			t, terr := os.CreateTemp("", "vos-open-*")
+			if terr != nil {
+				return nil, terr
+			}
+			os.Remove(t.Name())
+			t.Write(d)
+			t.Seek(0, 0)
+			return wrap(t, nil, name, false)
 		}
 	}
 	f, err := os.Open(name)
